@@ -1,6 +1,6 @@
-(* GENERATED from the Go sources of /var/tmp/mrepo by /verif/tools/gen_model — do not edit. *)
+(* GENERATED from the Go sources of /repo by /verif/tools/gen_model — do not edit. *)
 From Coq Require Import String.
-From OtpV Require Import Prelude Sha GoSem Rfc4648 Errors Decoder Otp Ocra Utils Suite.
+From OtpV Require Import Prelude Sha GoSem Rfc4648 Errors Decoder Otp Ocra Utils Suite Url.
 Open Scope N_scope.
 
 Definition atoi_go (s : bytes) : Z * option err := match atoi s with Some v => (v, None) | None => (0%Z, Some (EStd 11 [])) end.
@@ -16,12 +16,16 @@ Definition lower_ascii (c : N) : N := if (65 <=? c) && (c <=? 90) then c + 32 el
 Definition big_text16 (z : Z) : bytes := if (z <? 0)%Z then 45 :: map lower_ascii (hex_text (Z.to_N (- z))) else map lower_ascii (hex_text (Z.to_N z)).
 (* crypto/rand.Read(buf) fills the whole buffer from the source (oracle parameter) and never reports an error *)
 Definition rand_fill (buf src : bytes) : bytes := firstn (length buf) src ++ skipn (length src) buf.
+Definition assoc_str (l : list (N * bytes)) (k : N) : bytes := match find (fun kv => N.eqb (fst kv) k) l with Some kv => snd kv | None => [] end.
+Definition trim_prefix_go (p s : bytes) : bytes := if is_prefix p s then skipn (length p) s else s.
+Definition splitn2_go (sep : N) (s : bytes) : list bytes := let '(a, b, found) := cut1 sep s in if found then [a; b] else [s].
 Definition b32_decode_go (s : bytes) : bytes * option err :=
   let '(bs, o) := b32_decode_string s in (bs, match o with Some off => Some (EBase32 off) | None => None end).
 
 Definition hmacPools : list alg := [SHA1; SHA256; SHA512].
 Definition g_mod10 : list N := [0; 10; 100; 1000; 10000; 100000; 1000000; 10000000; 100000000; 1000000000; 10000000000].
 Definition g_DefaultHOTPParam : option param := Some (mkParam 6 0 2 0).
+Definition g_algoStrMap : list (N * bytes) := [(0%N, (s2b "SHA1")); (1%N, (s2b "SHA256")); (2%N, (s2b "SHA512"))].
 Definition g_DefaultTOTPParam : option param := Some (mkParam 6 30 0 0).
 
 Definition Digits_Int (d : N) : res Z :=
@@ -136,7 +140,6 @@ Definition deriveRFC4226 (fuel0 : nat) (junk_rfc4226BufPool : bytes) (secret : b
   else
   if ((Z.ltb digits 1%Z) || (Z.leb 11%Z digits)) then (Val ([], (Some (ESent ErrInvalidCodeLength))))
   else
-  let kj1 := fun (counter : N) =>
   do t1 <- pool_at hmacPools (Z.of_N algo);
   let hp := t1 in
   if negb (Nat.eqb (length junk_rfc4226BufPool) 8) then Pnc else
@@ -153,10 +156,7 @@ Definition deriveRFC4226 (fuel0 : nat) (junk_rfc4226BufPool : bytes) (secret : b
   Val (t5, None))
   else
   do t6 <- longDigit fuel0 otp digits;
-  Val (t6, None) in
-  if (N.eqb counter 6768574230975169895%N) then (let counter := (N.lxor counter 1%N) in
-  kj1 counter)
-  else (kj1 counter).
+  Val (t6, None).
 
 Definition validate (code : bytes) (expectedLength : Z) (deriveFn : (unit -> res (bytes * (option err)))) : res (bool * (option err)) :=
   if (negb (Z.eqb (zlen code) expectedLength)) then (Val (false, (Some (ESent ErrInvalidCodeLength))))
@@ -771,4 +771,108 @@ Definition RandomSecret (junk_rand : bytes) (algo : N) : res (bytes * (option er
   else if ((N.eqb t1 2%N)) then (let size := 64%Z in
   kj1 size)
   else (Val ([], (Some (ESent ErrUnsupportedAlgorithm)))).
+
+Definition Algorithm_String (algo : N) : res bytes :=
+  Val (assoc_str g_algoStrMap algo).
+
+Fixpoint generateOTPURL_loop1 (range_list : list (bytes * bytes)) (fuel0 : nat)   (query : (list (bytes * bytes))) (kx : (list (bytes * bytes)) -> res ((option url) * (option err))) {struct range_list} : res ((option url) * (option err)) :=
+  match range_list with
+  | [] => kx query
+  | (k, v) :: range_rest =>
+  let query := (values_set k v query) in
+  generateOTPURL_loop1 range_rest fuel0  query kx
+  end.
+
+Definition generateOTPURL (fuel0 : nat) (kind : bytes) (param_ : urlparam) (extraParams : (list (bytes * bytes))) : res ((option url) * (option err)) :=
+  if (beqb (up_issuer param_) []) then (Val (None, (Some (ESent ErrIssuerRequired))))
+  else
+  if (beqb (up_account param_) []) then (Val (None, (Some (ESent ErrAccountNameRequired))))
+  else
+  let kj1 := fun (param_ : urlparam) =>
+  let kj2 := fun (param_ : urlparam) =>
+  if (beqb (up_secret param_) []) then (Val (None, (Some (ESent ErrSecretRequired))))
+  else
+  let label := ((up_issuer param_) ++ [58] ++ (up_account param_)) in
+  let query := [] in
+  let query := (values_set (s2b "secret") (up_secret param_) query) in
+  let query := (values_set (s2b "issuer") (up_issuer param_) query) in
+  do t1 <- Algorithm_String (up_alg param_);
+  let query := (values_set (s2b "algorithm") t1 query) in
+  let query := (values_set (s2b "digits") ((dec_of_N (up_digits param_))) query) in
+  generateOTPURL_loop1 extraParams fuel0 query (fun (query : (list (bytes * bytes))) =>
+  Val ((Some (mkUrl (s2b "otpauth") [] false kind ((s2b "/") ++ label) ((s2b "/") ++ (escape label MPathSegment)) false (values_encode query) [])), None)) in
+  if (N.eqb (up_alg param_) 0%N) then (let param_ := mkUrlParam (up_issuer param_) (up_account param_) (up_period param_) (up_secret param_) (up_digits param_) 0%N in
+  kj2 param_)
+  else (kj2 param_) in
+  if (N.eqb (up_digits param_) 0%N) then (let param_ := mkUrlParam (up_issuer param_) (up_account param_) (up_period param_) (up_secret param_) 6%N (up_alg param_) in
+  kj1 param_)
+  else (kj1 param_).
+
+Definition GenerateTOTPURL (fuel0 : nat) (param_ : urlparam) : res ((option url) * (option err)) :=
+  let kj1 := fun (param_ : urlparam) =>
+  generateOTPURL fuel0 (s2b "totp") param_ [((s2b "period"), ((dec_of_N (up_period param_))))] in
+  if (N.eqb (up_period param_) 0%N) then (let param_ := mkUrlParam (up_issuer param_) (up_account param_) 30%N (up_secret param_) (up_digits param_) (up_alg param_) in
+  kj1 param_)
+  else (kj1 param_).
+
+Definition GenerateHOTPURL (fuel0 : nat) (param_ : urlparam) : res ((option url) * (option err)) :=
+  generateOTPURL fuel0 (s2b "hotp") param_ [((s2b "counter"), (s2b "0"))].
+
+Definition ParseOTPAuthURL (u : (option url)) : res ((option urlparam) * (option err)) :=
+  if (negb (is_some u)) then (Val (None, (Some (EFmt T_url_nil [] []))))
+  else
+  do t1 <- deref u;
+  if (negb (beqb (u_scheme t1) (s2b "otpauth"))) then (do t2 <- deref u;
+  Val (None, (Some (EFmt T_url_scheme [] [(u_scheme t2)]))))
+  else
+  do t3 <- deref u;
+  let otpType := (to_lower (u_host t3)) in
+  if ((negb (beqb otpType (s2b "totp"))) && (negb (beqb otpType (s2b "hotp")))) then (Val (None, (Some (EFmt T_url_type [] [otpType]))))
+  else
+  do t4 <- deref u;
+  let parts := (splitn2_go 58%N (trim_prefix_go (s2b "/") (u_path t4))) in
+  if (negb (Z.eqb (zlen parts) 2%Z)) then (Val (None, (Some (EFmt T_url_label [] []))))
+  else
+  do t5 <- idxS parts 0%Z;
+  do t6 <- idxS parts 1%Z;
+  let t7 := t5 in
+  let t8 := t6 in
+  let issuer := t7 in
+  let accountName := t8 in
+  do t9 <- deref u;
+  let query := (parse_query (u_rawquery t9)) in
+  let param_ := (Some (mkUrlParam issuer accountName 30%N (query_get (s2b "secret") query) 6%N 0%N)) in
+  let digitsStr := (query_get (s2b "digits") query) in
+  let kj1 := fun (param_ : (option urlparam)) =>
+  let algStr := (query_get (s2b "algorithm") query) in
+  let kj2 := fun (param_ : (option urlparam)) =>
+  let periodStr := (query_get (s2b "period") query) in
+  let kj3 := fun (param_ : (option urlparam)) =>
+  Val (param_, None) in
+  if (negb (beqb periodStr [])) then (do t10 <- Val (atoi_go periodStr);
+  let '(p, err_) := t10 in
+  if ((negb (is_some err_)) && (Z.leb 0%Z p)) then (do t11 <- deref param_;
+  let param_ := Some (mkUrlParam (up_issuer t11) (up_account t11) (of_int64 p) (up_secret t11) (up_digits t11) (up_alg t11)) in
+  kj3 param_)
+  else (Val (None, (Some (EFmt T_url_period [] [periodStr])))))
+  else (kj3 param_) in
+  if (negb (beqb algStr [])) then (let t12 := (to_upper_u algStr) in
+  if ((beqb t12 (s2b "SHA1"))) then (do t13 <- deref param_;
+  let param_ := Some (mkUrlParam (up_issuer t13) (up_account t13) (up_period t13) (up_secret t13) (up_digits t13) 0%N) in
+  kj2 param_)
+  else if ((beqb t12 (s2b "SHA256"))) then (do t14 <- deref param_;
+  let param_ := Some (mkUrlParam (up_issuer t14) (up_account t14) (up_period t14) (up_secret t14) (up_digits t14) 1%N) in
+  kj2 param_)
+  else if ((beqb t12 (s2b "SHA512"))) then (do t15 <- deref param_;
+  let param_ := Some (mkUrlParam (up_issuer t15) (up_account t15) (up_period t15) (up_secret t15) (up_digits t15) 2%N) in
+  kj2 param_)
+  else (Val (None, (Some (EFmt T_url_alg [] [algStr])))))
+  else (kj2 param_) in
+  if (negb (beqb digitsStr [])) then (do t16 <- Val (atoi_go digitsStr);
+  let '(digitsInt, err__2) := t16 in
+  if (((negb (is_some err__2)) && (Z.leb 0%Z digitsInt)) && (Z.leb digitsInt 255%Z)) then (do t17 <- deref param_;
+  let param_ := Some (mkUrlParam (up_issuer t17) (up_account t17) (up_period t17) (up_secret t17) (of_int 8%N digitsInt) (up_alg t17)) in
+  kj1 param_)
+  else (Val (None, (Some (EFmt T_url_digits [] [digitsStr])))))
+  else (kj1 param_).
 
